@@ -390,7 +390,7 @@ func runCase(r *mon.Run, c Case) {
 }
 
 func main() {
-	r := mon.Start("C10", "strings: y in [0,N) and [2^255-N,2^255) x both sign bits (N = 96 quick, 65536 thorough: exhaustive over that window), every non-canonical/torsion encoding, p-1-d*256^j / 2^255-1-d*256^j byte-position boundaries, PRNG strings; lengths 0..70 with receivers pre-loaded with B; predicates (IsIdentity/IsSmallOrder/IsTorsionFree/Equal/encode/SetEdwards) on {O, T_j, [k]B, [k]B+T_j, decoded} each in up to 8 projective scalings (graft); SetMontgomery on structured u (0,+-1,p+e, bit-255 forms, torsion images, twist) x both signs; non-trivial = a 32-byte string or a point/scaling tuple; distinct = SHA-256 of the input")
+	r := mon.Start("C10", "strings: y in [0,N) and [2^255-N,2^255) x both sign bits (N = 1024 quick, 65536 thorough: exhaustive over that window), every non-canonical/torsion encoding, p-1-d*256^j / 2^255-1-d*256^j byte-position boundaries, PRNG strings; lengths 0..70 with receivers pre-loaded with B; predicates (IsIdentity/IsSmallOrder/IsTorsionFree/Equal/encode/SetEdwards) on {O, T_j, [k]B, [k]B+T_j, decoded} each in up to 8 projective scalings (graft); SetMontgomery on structured u (0,+-1,p+e, bit-255 forms, torsion images, twist) x both signs; non-trivial = a 32-byte string or a point/scaling tuple; distinct = SHA-256 of the input")
 	r.Observe("graft", gx.Available)
 	var c Case
 	if r.LoadReplay(&c) {
@@ -399,18 +399,18 @@ func main() {
 		return
 	}
 	var cases []Case
-	n := r.Pick(96, 65536)
+	n := r.Pick(1024, 65536)
 	for lo := 0; lo < n; lo += 32 {
 		cases = append(cases, Case{Kind: "yrange", Lo: lo, Hi: lo + 32})
 	}
 	cases = append(cases, Case{Kind: "special"}, Case{Kind: "lengths", Stream: "c10/lengths"})
-	for i := 0; i < r.Pick(6, 100); i++ {
+	for i := 0; i < r.Pick(30, 600); i++ {
 		cases = append(cases, Case{Kind: "random", Stream: fmt.Sprintf("c10/random/%d", i)})
 	}
-	for i := 0; i < r.Pick(3, 40); i++ {
+	for i := 0; i < r.Pick(12, 200); i++ {
 		cases = append(cases, Case{Kind: "points", Stream: fmt.Sprintf("c10/points/%d", i)})
 	}
-	for i := 0; i < r.Pick(2, 40); i++ {
+	for i := 0; i < r.Pick(8, 200); i++ {
 		cases = append(cases, Case{Kind: "montgomery", Stream: fmt.Sprintf("c10/montgomery/%d", i)})
 	}
 	r.Parallel(len(cases), func(i int) { runCase(r, cases[i]) })
